@@ -12,6 +12,9 @@ import (
 	"time"
 
 	"github.com/plgd-dev/go-coap/v3/message"
+	"github.com/plgd-dev/go-coap/v3/message/codes"
+	"github.com/plgd-dev/go-coap/v3/message/pool"
+	"github.com/plgd-dev/go-coap/v3/net/responsewriter"
 	udpclient "github.com/plgd-dev/go-coap/v3/udp/client"
 
 	"verifharness/ref"
@@ -348,6 +351,147 @@ func retransmissionWriteFails(rec *vr.Rec, reps int, seed int64) {
 			}
 		}
 		cancel()
+		cc.Close()
+	}
+}
+
+// ownIDMeetsAnsweredPeerID: the two endpoints number their messages independently. This endpoint has answered requests of
+// the peer (their replies are remembered under the PEER's message IDs for de-duplication); its own next confirmable
+// request happens to get one of those numbers. The acknowledgement the peer sends for it carries that number too - it is
+// an acknowledgement, not a copy of the peer's old request: the call gets its response, the peer gets no stale reply.
+func ownIDMeetsAnsweredPeerID(rec *vr.Rec, reps int) {
+	for rep := 0; rep < reps; rep++ {
+		separate := rep%2 == 1
+		c := map[string]any{"scenario": "own confirmable request gets a message-ID number under which a reply to the peer is cached", "peer_answers_separately": separate}
+		s := sim.NewMemSession()
+		cc := sim.NewUDPConn(s, sim.UDPOpts{Handler: func(w *responsewriter.ResponseWriter[*udpclient.Conn], r *pool.Message) {
+			_ = w.SetResponse(codes.Content, message.TextPlain, bytes.NewReader([]byte("reply-to-peer")))
+		}})
+		stop := make(chan struct{})
+		peerDone := make(chan struct{})
+		var staleToPeer atomic.Int32
+		ownTokens := map[string]bool{}
+		peerGot := map[string]int{}
+		var mu sync.Mutex
+		go func() {
+			defer close(peerDone)
+			seen := 0
+			for {
+				select {
+				case <-stop:
+					return
+				default:
+				}
+				log := s.Log()
+				for ; seen < len(log); seen++ {
+					m, err := ref.ParseUDP(log[seen].Data)
+					if err != nil {
+						continue
+					}
+					if m.Type == 0 && m.Code == 1 { // a confirmable GET of the endpoint under test
+						mu.Lock()
+						ownTokens[string(m.Token)] = true
+						mu.Unlock()
+						body := []byte("answer:" + ref.PathOf(m))
+						if separate {
+							_ = cc.Process(nil, ref.EncodeUDP(ref.Msg{Type: 2, Code: 0, MID: m.MID}))
+							_ = cc.Process(nil, ref.EncodeUDP(ref.Msg{Type: 1, Code: 0x45, MID: uint16(50000 + seen), Token: m.Token, Payload: body}))
+						} else {
+							_ = cc.Process(nil, ref.EncodeUDP(ref.Msg{Type: 2, Code: 0x45, MID: m.MID, Token: m.Token, Payload: body}))
+						}
+					} else if m.Code == 0x45 && string(m.Payload) == "reply-to-peer" {
+						mu.Lock()
+						dup := peerGot[string(m.Token)]
+						peerGot[string(m.Token)]++
+						mu.Unlock()
+						if dup > 0 {
+							staleToPeer.Add(1)
+						}
+					}
+				}
+				time.Sleep(50 * time.Microsecond)
+			}
+		}()
+		get := func(path string) ([]byte, error) {
+			ctx, cancel := context.WithTimeout(context.Background(), 4*time.Second)
+			defer cancel()
+			m, err := cc.Get(ctx, path)
+			if err != nil {
+				return nil, err
+			}
+			defer cc.ReleaseMessage(m)
+			return m.ReadBody()
+		}
+		b1, err1 := get("/first")
+		if err1 != nil || string(b1) != "answer:/first" {
+			rec.Inconclusive(fmt.Sprintf("own id meets peer id: first request: %q %v", b1, err1))
+			close(stop)
+			<-peerDone
+			cc.Close()
+			continue
+		}
+		var m0 uint16
+		for _, d := range s.Log() {
+			if m, err := ref.ParseUDP(d.Data); err == nil && m.Type == 0 && m.Code == 1 {
+				m0 = m.MID
+				break
+			}
+		}
+		// how many of its own message IDs does one reply of this endpoint consume? (measured, not assumed)
+		_ = cc.Process(nil, ref.EncodeUDP(ref.Msg{Type: 1, Code: 1, MID: m0 + 3000, Token: []byte{0x9e, byte(rep), 0xff}, Opts: []ref.Opt{{ID: 11, Val: []byte("p")}}}))
+		sim.WaitFor(5*time.Second, func() bool { mu.Lock(); defer mu.Unlock(); return len(peerGot) >= 1 })
+		if bp, errp := get("/probe"); errp != nil || string(bp) != "answer:/probe" {
+			rec.Inconclusive(fmt.Sprintf("own id meets peer id: probe request: %q %v", bp, errp))
+			close(stop)
+			<-peerDone
+			cc.Close()
+			continue
+		}
+		var m1 uint16
+		for _, d := range s.Log() {
+			if m, err := ref.ParseUDP(d.Data); err == nil && m.Type == 0 && m.Code == 1 && ref.PathOf(m) == "/probe" {
+				m1 = m.MID
+			}
+		}
+		perReply := m1 - m0 - 1
+		if perReply == 0 || perReply > 8 {
+			perReply = 1
+		}
+		// the peer's own requests: non-confirmable (nothing steers the endpoint's counter away from them), numbered around
+		// the value the endpoint's counter will have reached once it has answered all twenty of them
+		target := m1 + 1 + perReply*20
+		lowest := target - 10
+		for k := 0; k < 20; k++ {
+			_ = cc.Process(nil, ref.EncodeUDP(ref.Msg{Type: 1, Code: 1, MID: lowest + uint16(k), Token: []byte{0x9e, byte(rep), byte(k)}, Opts: []ref.Opt{{ID: 11, Val: []byte("p")}}}))
+		}
+		sim.WaitFor(5*time.Second, func() bool { mu.Lock(); defer mu.Unlock(); return len(peerGot) >= 21 })
+		b2, err2 := get("/second")
+		var m2 uint16
+		for _, d := range s.Log() {
+			if m, err := ref.ParseUDP(d.Data); err == nil && m.Type == 0 && m.Code == 1 && ref.PathOf(m) == "/second" {
+				m2 = m.MID
+			}
+		}
+		rec.Eval(fmt.Sprintf("own-id-meets-peer-id|%v|%d", separate, rep))
+		rec.Count("own_id_meets_answered_peer_id_cases", 1)
+		inRange := m2-lowest < 20
+		if inRange {
+			rec.Count("own_requests_numbered_like_an_answered_peer_request", 1)
+		}
+		c["own_request_message_id"] = m2
+		c["answered_peer_ids"] = fmt.Sprintf("%d..%d", lowest, lowest+19)
+		switch {
+		case err2 != nil:
+			rec.Violation("C06/own-id-equals-answered-peer-id/call-failed", fmt.Sprintf("the peer acknowledged and answered the request (message ID %d, in the range of peer request IDs this endpoint had answered: %v), the call returned %v", m2, inRange, err2), c)
+		case string(b2) != "answer:/second":
+			rec.Violation("C06/own-id-equals-answered-peer-id/wrong-response", fmt.Sprintf("%q", b2), c)
+		case staleToPeer.Load() > 0:
+			rec.Violation("C06/own-id-equals-answered-peer-id/stale-reply-sent-to-peer", fmt.Sprintf("%d replies to old peer requests were sent again", staleToPeer.Load()), c)
+		default:
+			rec.Count("own_requests_completed", 1)
+		}
+		close(stop)
+		<-peerDone
 		cc.Close()
 	}
 }
